@@ -38,3 +38,54 @@ Print Assumptions C16_construction_coherent.
 Theorem C16_pager_mirror_all_reachable : pager_mirror_all_reachable_stmt.
 Proof. exact pager_mirror_all_reachable. Qed.
 Print Assumptions C16_pager_mirror_all_reachable.
+
+(* EXACTNESS of the boolean checker (theories/C16/Exact{Spec,Proofs}.v): under the well-formedness
+   conditions of a dump (validator conjuncts vS1/vS5, edges only on the grammar's symbols, core
+   lookaheads within the grammar's tokens, wf_grammar) [coherent_b] accepts EXACTLY the coherent
+   dumps — the reachability iteration saturates within nstates rounds, the fuel of the reference
+   LR(1) closure is enough — so a rejection is never a false alarm *)
+From GV Require Import C16.ExactSpec C16.ExactProofs.
+
+Theorem C16_reach_states_complete : reach_states_complete_stmt.
+Proof. exact reach_states_complete. Qed.
+Print Assumptions C16_reach_states_complete.
+
+Theorem C16_all_reachable_b_complete : all_reachable_b_complete_stmt.
+Proof. exact all_reachable_b_complete. Qed.
+Print Assumptions C16_all_reachable_b_complete.
+
+Theorem C16_all_reachable_b_reflects : all_reachable_b_reflects_stmt.
+Proof. exact all_reachable_b_reflects. Qed.
+Print Assumptions C16_all_reachable_b_reflects.
+
+Theorem C16_lr1_closure_exact : lr1_closure_exact_stmt.
+Proof. exact lr1_closure_exact. Qed.
+Print Assumptions C16_lr1_closure_exact.
+
+Theorem C16_closure_b_complete : closure_b_complete_stmt.
+Proof. exact closure_b_complete. Qed.
+Print Assumptions C16_closure_b_complete.
+
+Theorem C16_closure_b_reflects : closure_b_reflects_stmt.
+Proof. exact closure_b_reflects. Qed.
+Print Assumptions C16_closure_b_reflects.
+
+Theorem C16_coherent_b_complete : coherent_b_complete_stmt.
+Proof. exact coherent_b_complete. Qed.
+Print Assumptions C16_coherent_b_complete.
+
+Theorem C16_coherent_b_exact : coherent_b_exact_stmt.
+Proof. exact coherent_b_exact. Qed.
+Print Assumptions C16_coherent_b_exact.
+
+Theorem C16_coherent_b_exact_dump : coherent_b_exact_dump_stmt.
+Proof. exact coherent_b_exact_dump. Qed.
+Print Assumptions C16_coherent_b_exact_dump.
+
+Theorem C16_dump_edges_in_syms_b_sound : dump_edges_in_syms_b_sound_stmt.
+Proof. exact dump_edges_in_syms_b_sound. Qed.
+Print Assumptions C16_dump_edges_in_syms_b_sound.
+
+Theorem C16_core_la_in_toks_b_reflects : core_la_in_toks_b_reflects_stmt.
+Proof. exact core_la_in_toks_b_reflects. Qed.
+Print Assumptions C16_core_la_in_toks_b_reflects.
